@@ -404,6 +404,14 @@ def attr_object(name):
     return kdrv.raw_attr(name, primitives.TextString('x'))
 
 
+def locate_filter(name):
+    if name == 'Fresh':
+        return kdrv.raw_attr(name, primitives.Boolean(True, tag=enums.Tags.FRESH))
+    if name == 'Name':
+        return kdrv.attr('NAME', kdrv.name_value('k1'), 0)
+    return attr_object(name)
+
+
 def template_ops(sc, attrs):
     base = kdrv.sym_attrs(enums.CryptographicAlgorithm.AES, 256, (M.ENCRYPT, M.DECRYPT))
     names = [a.attribute_name.value for a in attrs]
@@ -477,6 +485,30 @@ def attribute_matrix(ctx, cases, meta):
                                           label, late[0], vstr(SPEC_ATTR_MIN[late[0]]), vstr(v)))
         finally:
             sc.close()
+    # attribute names used as Locate filters
+    sc = Scene(ctx)
+    try:
+        for v in SUPPORTED:
+            for names in singles + multis[:6]:
+                filt = [locate_filter(n) for n in names]
+                r = sc.eng.request([kdrv.locate(filt)], version=v)
+                it = r['items'][0]
+                m = re.match(r'^The (.*) attribute is unsupported\.$', it['message'] or '')
+                refused = m.group(1) if (m and it['reason'] == 'INVALID_FIELD') else None
+                cases.append('CLocate %s %s %s' % (cver(v), cp.lst(names, cp.string), cp.option(refused, cp.string)))
+                meta.append(('locate-filter', v, names))
+                ctx.case_seen(('locate-filter', v, tuple(names)))
+                ctx.count('locate.%s' % ('gate-refused' if refused else ('ok' if kdrv.ok(it) else 'failed-later')))
+                late = [n for n in names if SPEC_ATTR_MIN.get(n, (1, 0)) > v]
+                if late and kdrv.ok(it):
+                    ctx.violation({'class': 'attr-accepted', 'op': 'Locate', 'attribute': late[0], 'version': vstr(v),
+                                   'site': 'engine.py:_process_locate'},
+                                  {'version': v, 'operation': 'Locate', 'filter_attribute_names': names, 'result': strip(it),
+                                   'located': (it['payload'] or {}).get('unique_identifiers')},
+                                  'Locate with filter attribute %r (introduced in KMIP %s) was accepted and evaluated under KMIP %s' % (
+                                      late[0], vstr(SPEC_ATTR_MIN[late[0]]), vstr(v)))
+    finally:
+        sc.close()
     # what is reported
     sc = Scene(ctx)
     try:
@@ -590,3 +622,38 @@ def run(ctx):
         'harness/kdrv.py + harness/c16*.py drivers and message classification (gate message patterns)',
         'float(str(version)) modelled as exact decimal comparison (equal to the double comparison for <= 15 significant digits)',
         'hand-written SpecMinVersions / SpecFieldVersions tables (Version/Spec.v) and SPEC_* tables of harness/c16.py, from the KMIP 1.0-2.0 specifications']
+
+
+FAMILY = {'op-gate': 'ops', 'echo': 'ops', 'unsupported-version': 'ops', 'query-advertises-unavailable': 'ops',
+          'query-advertises-later-op': 'ops', 'version-acceptance': 'accept', 'discover-versions': 'discover',
+          'attr-accepted': 'attrs', 'attr-reported': 'attrs', 'field-sent': 'fields', 'field-accepted': 'fields',
+          'echo-wire': 'session'}
+
+
+def replay(ctx, rec):
+    """bin/check C16 --replay <file>: re-evaluate the direct oracle of the recorded violation's family on the current tree."""
+    sig = rec.get('signature') or {}
+    fam = FAMILY.get(sig.get('class'))
+    cases, meta = [], []
+    if fam in (None, 'accept'):
+        acceptance_cases(ctx, cases, meta)
+    if fam in (None, 'ops', 'discover'):
+        adv = operation_matrix(ctx, cases, meta)
+        query_discover_cases(ctx, cases, meta, adv)
+    if fam in (None, 'attrs'):
+        attribute_matrix(ctx, cases, meta)
+    if fam in (None, 'fields'):
+        c16_fields.field_cases(ctx, cases, meta)
+    if fam in (None, 'session', 'ops'):
+        c16_session.session_cases(ctx, cases, meta)
+    hits = [v for v in ctx.violations if all(v['signature'].get(k) == x for k, x in sig.items())] if sig else list(ctx.violations)
+    known = sorted(ctx.known_hits)
+    if hits:
+        print('REPRODUCED property=C16 %s' % hits[0]['what'])
+        print('input: %r' % (hits[0]['witness'],))
+        return 1
+    if ctx.violations:
+        print('NOT-REPRODUCED-AS-RECORDED property=C16; other violation: %s' % ctx.violations[0]['what'])
+        return 1
+    print('NOT-REPRODUCED property=C16 (direct oracle of family %r passes; known findings seen: %s)' % (fam, known))
+    return 0
